@@ -1,0 +1,52 @@
+//go:build verif
+
+package astisub
+
+// Contracts consumed by /verif/govc (the verification-condition generator).
+// This file holds comments only and is compiled only under the "verif" build
+// tag; it has no effect on the library.
+
+// ---------------------------------------------------------------------------
+// Shared predicates
+// ---------------------------------------------------------------------------
+
+//@ pred inItems(k int, s *Subtitles) = 0 <= k && k < len(s.Items)
+//@ pred nonNil(s *Subtitles) = forall k int :: 0 <= k && k < len(s.Items) ==> s.Items[k] != nil
+//@ pred distinct(s *Subtitles) = forall k, m int :: 0 <= k && k < m && m < len(s.Items) ==> s.Items[k] != s.Items[m]
+//@ pred wfItems(s *Subtitles) = s != nil && nonNil(s) && distinct(s)
+//@ pred wellTimed(s *Subtitles) = forall k int :: 0 <= k && k < len(s.Items) ==> s.Items[k].StartAt <= s.Items[k].EndAt
+//@ pred bounded(s *Subtitles) = forall k int :: 0 <= k && k < len(s.Items) ==> 0 - 4611686018427387904 <= s.Items[k].StartAt && s.Items[k].EndAt <= 4611686018427387904
+//@ pred boundedD(d time.Duration) = 0 - 4611686018427387904 <= d && d <= 4611686018427387904
+
+// ---------------------------------------------------------------------------
+// C09  (*Subtitles).Add
+// ---------------------------------------------------------------------------
+
+//@ func (s *Subtitles) Add(d time.Duration)
+//@   prop C09
+//@   requires wfItems(s) && wellTimed(s) && bounded(s) && boundedD(d)
+//@   ghostfun opaque O(k int) *Item = old(s.Items[k])
+//@   ghostfun opaque E0(k int) time.Duration = old(s.Items[k].EndAt)
+//@   ghostfun opaque S0(k int) time.Duration = old(s.Items[k].StartAt)
+//@   ghostfun alive(k int) bool = E0(k) + d > 0
+//@   ghostfun cnt(k int) int = k <= 0 ? 0 : cnt(k-1) + (alive(k-1) ? 1 : 0)
+//@   lemma cntRange(k int) by induction on k : 0 <= k ==> 0 <= cnt(k) && cnt(k) <= k
+//@   lemma cntMono(a int, b int) by induction on b : 0 <= a && a <= b ==> cnt(a) <= cnt(b)
+//@   lemma cntStrict(a int, b int) by induction on b : 0 <= a && a < b && alive(a) ==> cnt(a) < cnt(b)
+//@   lemma oNonNil(k int) : 0 <= k && k < old(len(s.Items)) ==> O(k) != nil && S0(k) <= E0(k)
+//@   lemma oDistinct(a int, b int) : 0 <= a && a < b && b < old(len(s.Items)) ==> O(a) != O(b)
+//@   ensures [count] len(s.Items) == cnt(old(len(s.Items)))
+//@   ensures [survivors] forall k int :: 0 <= k && k < old(len(s.Items)) && alive(k) ==> s.Items[cnt(k)] == O(k) && O(k).EndAt == E0(k) + d && O(k).StartAt == max(S0(k) + d, 0)
+//@   ensures [removed] forall k, m int :: 0 <= k && k < old(len(s.Items)) && !alive(k) && 0 <= m && m < len(s.Items) ==> s.Items[m] != O(k)
+//@   assigns s.Items, elems(s.Items), Item.StartAt, Item.EndAt
+//@   loop 1: ghost j int = 0 ; at_end j + 1
+//@   loop 1: invariant 0 <= idx && idx <= len(s.Items) && 0 <= j && j <= old(len(s.Items)) && len(s.Items) == old(len(s.Items)) - (j - idx) && idx == cnt(j)
+//@   loop 1: invariant arr(s.Items) == old(arr(s.Items)) && off(s.Items) == old(off(s.Items)) && cap(s.Items) == old(cap(s.Items))
+//@   loop 1: invariant forall k int :: 0 <= k && k < j && alive(k) ==> s.Items[cnt(k)] == O(k) && O(k).EndAt == E0(k) + d && O(k).StartAt == max(S0(k) + d, 0)
+//@   loop 1: invariant forall m int :: idx <= m && m < len(s.Items) ==> s.Items[m] == O(m + (j - idx))
+//@   loop 1: invariant forall k int :: j <= k && k < old(len(s.Items)) ==> O(k).EndAt == E0(k) && O(k).StartAt == S0(k)
+//@   loop 1: invariant forall a int :: a != old(arr(s.Items)) ==> sameElems(a, *Item)
+//@   loop 1: invariant distinct(s)
+//@   loop 1: invariant forall k, m int :: 0 <= k && k < j && !alive(k) && 0 <= m && m < len(s.Items) ==> s.Items[m] != O(k)
+//@   loop 1: decreases len(s.Items) - idx
+//@ end
